@@ -392,6 +392,7 @@ func C01(c *Ctx) {
 	tableCutGroup(c, r7)
 	seekGapGroup(c, "K2.seek-continues-into-next-block")
 	versionAccumulatorGroup(c, "K2.version-accumulator-orderings")
+	newestAcrossSourcesGroup(c, "K10.newest-version-across-sources")
 	levelDisjointGroup(c, "K2.level-tables-disjoint")
 	const r6 = "K2.delete-and-expiry-semantics"
 	deleteSemanticsGroup(c, r6)
@@ -473,6 +474,7 @@ func C02(c *Ctx) {
 	tableCutGroup(c, r4)
 	seekGapGroup(c, "K2.seek-continues-into-next-block")
 	versionAccumulatorGroup(c, "K2.version-accumulator-orderings")
+	newestAcrossSourcesGroup(c, "K10.newest-version-across-sources")
 	levelDisjointGroup(c, "K2.level-tables-disjoint")
 	const r5 = "K1.compaction-keeps-every-entry"
 	compactionKeepsAllGroup(c, r5)
